@@ -458,16 +458,27 @@ fn main()
     // Clifford combinators (Composite / Loop with sub-gates in every operand order) on basis states, stabilizer representation
     for _ in 0..(if thorough() { 1500 } else { 300 }) { let (r, a) = cperm_line(&mut rng); out.case(&r, &a); }
     // ... and on superposed / entangled states: statistics on all three representation choices
-    for i in 0..(if thorough() { 150 } else { 40 })
+    for i in 0..(if thorough() { 250 } else { 70 })
     {
         let nq = 2 + rng.below(3) as usize;
         let mut ops: Vec<String> = vec![];
-        for q in 0..nq { match rng.below(3) { 0 => ops.push(format!("gate 1 {} H", q)), 1 => ops.push(format!("gate 1 {} X", q)), _ => {} } }
+        if i % 2 == 0
+        {
+            // entangled start (Bell / GHZ chain in a random qubit order, now and then rotated): rows of the tableau then carry
+            // non-identity Paulis on the qubits of BOTH factors of a Kron
+            let mut qs: Vec<usize> = (0..nq).collect(); rng.shuffle(&mut qs);
+            ops.push(format!("gate 1 {} H", qs[0]));
+            for w in qs.windows(2) { ops.push(format!("gate 2 {} {} CX", w[0], w[1])); }
+            for q in 0..nq { match rng.below(5) { 0 => ops.push(format!("gate 1 {} H", q)), 1 => ops.push(format!("gate 1 {} S", q)), _ => {} } }
+        }
+        else { for q in 0..nq { match rng.below(3) { 0 => ops.push(format!("gate 1 {} H", q)), 1 => ops.push(format!("gate 1 {} X", q)), _ => {} } } }
         for _ in 0..(1 + rng.below(3))
         {
             let k = 2 + rng.below((nq - 1).min(2) as u64) as usize;
             let mut bits: Vec<usize> = (0..nq).collect(); rng.shuffle(&mut bits); bits.truncate(k);
-            let mut term = gen_clifford_term(k, 2, &mut rng);
+            // a third: a product of one-qubit Cliffords (both factors may flip the sign of a row)
+            let mut term = if rng.below(3) == 0 { let mut t = rng.pick(&["X", "Y", "Z", "H", "S", "Sdg", "V"]).to_string(); for _ in 1..k { t = format!("Kron {} {}", t, rng.pick(&["X", "Y", "Z", "H", "S", "Sdg", "V"])); } t }
+                else { gen_clifford_term(k, 2, &mut rng) };
             while !(term.starts_with("Comp") || term.starts_with("Loop") || term.starts_with("Kron")) { term = gen_clifford_term(k, 2, &mut rng); }
             ops.push(format!("gate {} {} {}", k, join(&bits), term));
             if rng.below(3) == 0 { let q = rng.below(nq as u64) as usize; ops.push(format!("measure {} {} {}", q, q, gen_basis(&mut rng))); }
